@@ -16,8 +16,11 @@ CONSTANTS PreCheck, MaxServices, MaxVersions, SmallUniverse
 IntRef(nn) == [name |-> "int64", kind |-> "SCALAR", nn |-> <<nn>>]
 KindRef == [name |-> "Kind", kind |-> "ENUM", nn |-> <<FALSE>>]
 None == [x \in {} |-> x]
-ArgSets == IF SmallUniverse THEN {None, [id |-> IntRef(FALSE)], [id |-> IntRef(TRUE), kind |-> KindRef]}
-           ELSE {None, [id |-> IntRef(FALSE)], [id |-> IntRef(TRUE)], [kind |-> KindRef], [id |-> IntRef(FALSE), kind |-> KindRef]}
+ListRef(e) == [name |-> "int64", kind |-> "SCALAR", nn |-> <<TRUE, e>>]
+ArgSets == IF SmallUniverse THEN {None, [id |-> IntRef(FALSE)], [id |-> IntRef(TRUE), kind |-> KindRef], [ids |-> ListRef(TRUE)], [ids |-> ListRef(FALSE)]}
+           ELSE {None, [id |-> IntRef(FALSE)], [id |-> IntRef(TRUE)], [kind |-> KindRef], [id |-> IntRef(FALSE), kind |-> KindRef],
+                 [ids |-> ListRef(TRUE)], [ids |-> ListRef(FALSE)]}
+EnumSets == IF SmallUniverse THEN {{"A", "B"}} ELSE {{"A"}, {"A", "B"}}
 ItemField(t, a) == [type |-> [name |-> "Item", kind |-> "OBJECT", nn |-> <<t>>], args |-> a]
 Obj(f) == [kind |-> "OBJECT", fields |-> f, inputs |-> None, values |-> {}, possible |-> {}]
 Scalar == [kind |-> "SCALAR", fields |-> None, inputs |-> None, values |-> {}, possible |-> {}]
@@ -27,13 +30,15 @@ ItemType(withName) == Obj(IF withName THEN [id |-> [type |-> IntRef(TRUE), args 
 \* a version: has Query.item or not (type nullability, argument set), Item.name or not, enum values
 Universe ==
   {[Query |-> Obj([item |-> ItemField(t, a)]), Item |-> ItemType(a = None), Kind |-> Enum(vs), int64 |-> Scalar]
-      : t \in BOOLEAN, a \in ArgSets, vs \in {{"A"}, {"A", "B"}}}
+      : t \in BOOLEAN, a \in ArgSets, vs \in EnumSets}
   \cup {[Query |-> Obj([count |-> [type |-> IntRef(TRUE), args |-> None]]), Item |-> ItemType(TRUE), int64 |-> Scalar]}
 
-Lit(k, v) == [k |-> k, v |-> v, fields |-> None]
+Lit(k, v) == [k |-> k, v |-> v, fields |-> None, elems |-> <<>>]
+ListLit(es) == [k |-> "list", v |-> "", fields |-> None, elems |-> es]
 Queries ==
   {[field |-> "item", args |-> a, subs |-> s] :
-      a \in {None, [id |-> Lit("int", "1")], [kind |-> Lit("enum", "B")], [id |-> Lit("int", "1"), kind |-> Lit("enum", "A")]},
+      a \in {None, [id |-> Lit("int", "1")], [kind |-> Lit("enum", "B")], [id |-> Lit("int", "1"), kind |-> Lit("enum", "A")],
+             [ids |-> ListLit(<<Lit("int", "1")>>)], [ids |-> ListLit(<<Lit("int", "1"), Lit("null", "null")>>)]},
       s \in {<<[on |-> "", field |-> "id"]>>, <<[on |-> "", field |-> "id"], [on |-> "", field |-> "name"]>>}}
   \cup {[field |-> "count", args |-> None, subs |-> <<>>]}
 
